@@ -38,7 +38,7 @@ ASSUMPTIONS = [
 BUDGET = {"quick": 45, "thorough": 420}
 NCASES = {"quick": 3000, "thorough": 60000}
 FLOORS = {"quick": {"case_held": 400, "nontrivial": 300}, "thorough": {"case_held": 8000, "nontrivial": 6000}}
-COVER_FLOORS = {"quick": {"kinds": ["variable", "nested", "second", "coefficient", "coef-and-variable"]}, "thorough": {"kinds": ["variable", "nested", "second", "coefficient", "mixed-second", "coef-and-variable"]}}
+COVER_FLOORS = {"quick": {"kinds": ["variable", "nested", "second", "coefficient", "coef-and-variable", "twin-variables", "variable-of-x"]}, "thorough": {"kinds": ["variable", "nested", "second", "coefficient", "mixed-second", "coef-and-variable", "twin-variables", "variable-of-x"]}}
 CELLS = [("interval", 1), ("triangle", 2), ("triangle", 2), ("triangle", 3), ("tetrahedron", 3)]
 VSHAPES = [(), (), (2,), (3,), (2, 2), (2, 3)]
 
@@ -75,7 +75,7 @@ def case(ctx, i, rng):
     cell, gdim = rng.choice(CELLS)
     cplx = rng.random() < 0.25
     U = Universe(rng, cell, gdim, "cell", cplx)
-    kind = rng.choice(["variable", "variable", "nested", "second", "coefficient", "mixed-second", "coef-and-variable"])
+    kind = rng.choice(["variable", "variable", "nested", "second", "coefficient", "mixed-second", "coef-and-variable", "twin-variables", "variable-of-x"])
     mk = lambda **kw: Gen(U, rng, cplx=cplx, deriv=rng.choice([0, 1]), cond=rng.random() < 0.3, math=rng.random() < 0.8, geom=rng.random() < 0.4, **kw)
     try:
         G1 = mk()
@@ -98,7 +98,31 @@ def case(ctx, i, rng):
         Gf.extra = list(vs)
         Gf.extra_prob = 0.6
         fshape = rng.choice([(), (), (2,), (gdim,), (2, 2)])
-        if kind == "coef-and-variable":
+        if kind == "twin-variables":
+            # two different variables (labels) wrapping the SAME expression, both differentiated in one expansion
+            v2 = ufl.variable(v1.ufl_operands[0])
+            vs = [v1, v2]
+            Gf.extra = [v1, v2]
+            Gf.extra_prob = 0.7
+            f = Gf.expr(fshape, rng.choice([2, 3]))
+            target = v2
+            r = rng.random()
+            if r < 0.4:
+                e = ufl.diff(f, v1) + 2 * ufl.diff(f, v2)
+            elif r < 0.7:
+                e = ufl.diff(ufl.diff(f, v1), v2)
+            else:
+                e = ufl.diff(ufl.diff(f, v2), v1) - ufl.diff(ufl.diff(f, v1), v1)
+        elif kind == "variable-of-x":
+            # the variable wraps the spatial coordinate; f also depends on position in other ways (raw x, coefficients)
+            X = ufl.variable(U.x)
+            vs = [X]
+            Gf.extra = [X, X, U.x]
+            Gf.extra_prob = 0.6
+            f = Gf.expr(fshape, rng.choice([2, 3]))
+            target = X
+            e = ufl.diff(f, X)
+        elif kind == "coef-and-variable":
             u = ufl.Coefficient(U.spaces[cname], count=v1.ufl_operands[1].count())
             Gf.extra = [u, v1]
             Gf.extra_prob = 0.7
@@ -134,7 +158,15 @@ def case(ctx, i, rng):
         ctx.count("folded_at_construction")
     dep = contains(f, target) if kind == "coefficient" else contains_label(f, target.ufl_operands[1])
     worlds = oracle.worlds_for(rng, cell, gdim, "cell", cplx, n=3)
-    verdict, out = check_pass(ctx, "C04", "expand_derivatives", e, expand_derivatives, worlds, extra_key="/" + kind)
+    e_def = e
+    if kind in ("variable", "coefficient", "variable-of-x") and type(target).__name__ in ("Variable", "Coefficient"):
+        # the defining node built directly, so that a diff() that silently returns something else (e.g. the total
+        # gradient for a variable that wraps the spatial coordinate) is seen as well; S evaluates it by definition
+        try:
+            e_def = ufl.classes.VariableDerivative(f, target)
+        except Exception:
+            e_def = e
+    verdict, out = check_pass(ctx, "C04", "expand_derivatives", e_def, lambda _x: expand_derivatives(e), worlds, extra_key="/" + kind, localise=e_def is e)
     ctx.covered("kinds", kind) if verdict == "held" else None
     if verdict == "held":
         if dep:
